@@ -238,7 +238,94 @@ def replay(ctx, case):
     check_tuple(ctx, case['lib'], tuple(case['parts']), estimates=True)
 
 
+def ring_system_shared(smi):
+    """Two rings sharing >= 2 atoms (fused / bridged): where the open C03
+    finding (Kekule-form / SSSR-order dependent ring perception) lives."""
+    from rdkit import Chem
+    m = Chem.MolFromSmiles(smi)
+    if m is None:
+        return False
+    rings = [set(r) for r in m.GetRingInfo().AtomRings()]
+    return any(len(rings[a] & rings[b]) >= 2 for a in range(len(rings))
+               for b in range(a + 1, len(rings)))
+
+
 def classify(v):
+    """Known finding (the C03 finding `kekule-form-dependent-perception`
+    seen through a mixture): a component with a fused / bridged ring system
+    is perceived differently -- other Kekule structure, other SSSR ring
+    order, hence other rings made aromatic -- when further components are
+    present in the same input.  An instance must (a) contain such a
+    component, (b) for a mismatch: differ in GROUP names only, every other
+    component must carry exactly the groups it carries alone (per-atom
+    names of the annotated molecule), and the joint mapping must be the
+    declared decomposition of the joint's own normalised molecule; (c) for a
+    failure of the joint: the unassigned atom must belong to such a
+    component."""
+    try:
+        import collections as _c
+        import re
+        from rdkit import Chem
+        from vmon.props import c02
+        from vmon.refs import ring as R
+        sig = v.get('sig', '')
+        case = v.get('case', {})
+        parts = list(case.get('parts') or [])
+        libname = case.get('lib')
+        if not parts or not isinstance(libname, str):
+            return None
+        shared = [ring_system_shared(p) for p in parts]
+        if not any(shared):
+            return None
+        real, ref = c02.get_scheme(libname)
+
+        def groups_of(hm, idxs):
+            return _c.Counter(hm.GetAtomWithIdx(i).GetProp('Group_name')
+                              for i in idxs
+                              if hm.GetAtomWithIdx(i).HasProp('Group_name'))
+        if sig == 'descriptors of the mixture != sum over components':
+            diffs = v.get('detail', {}).get('differences', {})
+            if not diffs or any('(' not in k for k in diffs):
+                return None
+            real._verif_last_mol = None
+            got = dict(real.GetDescriptors('.'.join(parts)))
+            hm = real._verif_last_mol
+            if hm is None:
+                return None
+            want, _, _ = ref.decompose(hm, R.Facts(hm))
+            if any(abs(float(got.get(k, 0)) - float(want.get(k, 0))) > 1e-12
+                   for k in set(got) | set(want)):
+                return None
+            frags = sorted(Chem.GetMolFrags(hm), key=min)
+            if len(frags) != len(parts):
+                return None
+            for p, fr, sh in zip(parts, frags, shared):
+                if sh:
+                    continue
+                real._verif_last_mol = None
+                real.GetDescriptors(p)
+                alone = real._verif_last_mol
+                if alone is None or groups_of(alone, range(
+                        alone.GetNumAtoms())) != groups_of(hm, fr):
+                    return None
+            return 'fused-ring-perception-depends-on-context'
+        if sig.startswith('components decompose but the joint species raises '
+                          'PatternMatchError'):
+            m = re.search(r'atom number (\d+)', v.get('detail', {}).get(
+                'msg', ''))
+            if not m:
+                return None
+            n = int(m.group(1))
+            off = 0
+            for p, sh in zip(parts, shared):
+                k = Chem.MolFromSmiles(p).GetNumAtoms()
+                if off <= n < off + k:
+                    return 'fused-ring-perception-depends-on-context' \
+                        if sh else None
+                off += k
+            return None
+    except Exception:
+        return None
     return None
 
 
